@@ -69,6 +69,10 @@ def run(ck, tier):
     _infl.run(ck, F, 'C03')
     from . import mustpass as _mp
     _mp.run(ck, F, 'C03')
+    from . import accum as _acc2
+    _acc2.run2(ck, F, 'C03')
+    from . import siblings as _sib
+    _sib.check(ck, F, 'C03')
     from . import c03x
     c03x.run(ck, F)
     from . import accum as _acc
